@@ -95,6 +95,15 @@ CLAIMS = {
         "library handlers let delivery errors escape. Scan obligations: writers of the guard, places where it is lifted.",
    note="Trusted: pyvc encoding, z3; interface contracts of handlers and init_sblock. The composition 'refused re-entry stops the "
         "simulation through any chain of blocks' is a textual argument over the two function-level facts (see evidence.unclaimed)."),
+ 'C13': dict(
+   text="The three comparison functions (_cmp_open, _cmp_closed, DateTimeInterval._cmp_open), the dispatch _cmp and __contains__ for the "
+        "three interval kinds, convert_time_seq/convert_date_seq (length windows, zero defaults, range errors), _name_to_month (13-step "
+        "loop unrolled) and _match_pattern (cutting a token out keeps its two sides apart) are executed from the real AST against the "
+        "membership rules of the statement (left-closed/right-open with midnight wrap and equal endpoints = whole day; inclusive dates "
+        "wrapping at the year end; date-times never wrap); corner-case lemmas over the real order.",
+   note="Trusted: naive time/date/datetime values are totally ordered (order embedding into the reals); datetime constructors. "
+        "Bounded (labelled): equivalence of the string notations, numeric/string round trips, weekday normalisation, malformed input - "
+        "12.8k-case grid against the real parsers (regexes, strptime/fromisoformat are outside the verifier)."),
  'C14': dict(
    text="Circuit.is_ready, Circuit.findblock, ExtEvent.__init__, ExtEvent.send, check_name, Block.__init__ (naming clause) and Event.send "
         "are executed from the real AST against contracts stating the property: send raises EdzedInvalidState and delivers nothing iff "
